@@ -207,7 +207,7 @@ func run(h hist, scratch string, kinds map[string]int) (res result) {
 			b.Hash = encryption.Hash(fmt.Sprintf("block-%d", rnd))
 			b.MinerID = minerID
 			b.RoundRank = 0
-			b.SetPreviousBlock(prev)
+			b.PrevBlock = prev // (SetPreviousBlock would renumber the round: rounds can be skipped here)
 			b.PrevHash = prev.Hash
 			st8 := block.CreateStateWithPreviousBlock(prev, pndb, b.Round)
 			rec := &blockRec{round: rnd}
@@ -308,6 +308,9 @@ func oracle(h hist, res result, kinds map[string]int) string {
 		}
 		for _, a := range br.adds {
 			if o, ok := br.origins[a]; ok && o != int64(br.round) {
+				if os.Getenv("VERIF_DEBUG") != "" {
+					fmt.Fprintln(os.Stderr, "ORIGIN", o, "round", br.round, "start", h.Start)
+				}
 				return "new-node-origin-is-not-the-block-round"
 			}
 		}
@@ -437,7 +440,7 @@ func main() {
 	round.SetupEntity(memorystore.GetStorageProvider())
 	block.SetupEntity(memorystore.GetStorageProvider())
 	block.SetupBlockSummaryEntity(memorystore.GetStorageProvider())
-	node.Self.Node.Type = node.NodeTypeSharder
+	node.Self.Node.Type = node.NodeTypeMiner
 	scratch := filepath.Join("/var/tmp/vs", fmt.Sprintf("codec-c27-%d", os.Getpid()))
 	_ = os.MkdirAll(scratch, 0o755)
 	defer os.RemoveAll(scratch)
